@@ -262,7 +262,8 @@ def state_contract(name, wc, post, loops=None, regex_total=None):
     contract(
         f"liquid2.lexer:Lexer.{name}",
         # C15: the line number reported for a message is derived from the start offset of its tag's token
-        props=["C17", "C02", "C15"],
+        # C11: every reported span is the start/stop of a token
+        props=["C17", "C02", "C15", "C11"],
         params={"self": Shared("lexer_self", LEXER(wc=wc, **LISTS))},
         pre=INV[name],
         loops=loops or {},
